@@ -12,10 +12,10 @@
 EXTENDS Reader, Json, IOUtils
 
 Rec == ndJsonDeserialize(IOEnv.TRACE)
-MaxVerdicts == 40
+MaxVerdicts == 300
 
-VARIABLES l, kind, s, a, lc, ci, closed, skipping, verdicts, nverdicts, nscen, nok
-vars == <<l, kind, s, a, lc, ci, closed, skipping, verdicts, nverdicts, nscen, nok>>
+VARIABLES l, kind, s, a, lc, ci, closed, skipping, verdicts, nverdicts, nscen, nok, ff
+vars == <<l, kind, s, a, lc, ci, closed, skipping, verdicts, nverdicts, nscen, nok, ff>>
 
 Ev == Rec[l]
 Flag(rule) ==
@@ -29,7 +29,7 @@ S0 == HInit(<<>>, 0)
 A0 == AInit(0, 0, 0)
 L0 == [cs |-> <<>>, flen |-> 0]
 TInit == /\ l = 1 /\ kind = "" /\ s = S0 /\ a = A0 /\ lc = L0 /\ ci = 1 /\ closed = FALSE /\ skipping = TRUE
-         /\ verdicts = <<>> /\ nverdicts = 0 /\ nscen = 0 /\ nok = 0
+         /\ verdicts = <<>> /\ nverdicts = 0 /\ nscen = 0 /\ nok = 0 /\ ff = FALSE
 
 Scenario ==
   /\ l <= Len(Rec) /\ Ev.ev = "scenario" /\ l' = l + 1
@@ -37,10 +37,24 @@ Scenario ==
   /\ s' = IF Ev.kind = "chunks" THEN Settle(HInit(Pairs(Ev.chunks), Ev.budget)) ELSE S0
   /\ a' = IF Ev.kind = "read_at" THEN AInit(Ev.off, Ev.size, Ev.budget) ELSE A0
   /\ lc' = IF Ev.kind = "local" THEN [cs |-> Pairs(Ev.chunks), flen |-> Ev.flen] ELSE L0
+  \* ff: the server of this scenario answers every request completely (no scripted fault)
+  /\ ff' = (Ev.kind = "chunks" /\ \A i \in 1..Len(Ev.script) : Ev.script[i].how = "full")
   /\ UNCHANGED <<verdicts, nverdicts, nok>>
 
+\* a scenario abandoned at its first verdict (whichever property it belongs to) is no longer followed by the model, but what the consumer
+\* is handed can still be judged on its own: the i-th delivered chunk must be exactly the i-th requested one
+SoftVerdict(rule) == /\ verdicts' = IF nverdicts < MaxVerdicts THEN Append(verdicts, [scenario |-> nscen, line |-> l, rule |-> rule]) ELSE verdicts
+                     /\ nverdicts' = nverdicts + 1
 Skip == /\ l <= Len(Rec) /\ skipping /\ Ev.ev # "scenario" /\ l' = l + 1
-        /\ UNCHANGED <<kind, s, a, lc, ci, closed, skipping, verdicts, nverdicts, nscen, nok>>
+        /\ IF kind = "chunks" /\ Ev.ev = "item"
+           THEN /\ ci' = ci + 1
+                /\ IF ci > Len(s.cs) \/ <<Ev.pos, Ev.len>> # <<s.cs[IF ci > Len(s.cs) THEN 1 ELSE ci][1], s.cs[IF ci > Len(s.cs) THEN 1 ELSE ci][2]>>
+                   THEN SoftVerdict("C08 ITEM: delivered chunk is not exactly the requested range (short, shifted or duplicated)")
+                   ELSE UNCHANGED <<verdicts, nverdicts>>
+           ELSE IF kind = "chunks" /\ Ev.ev = "error" /\ ff
+           THEN SoftVerdict("C08 ERR: error reported although the server answered every request completely") /\ UNCHANGED ci
+           ELSE UNCHANGED <<ci, verdicts, nverdicts>>
+        /\ UNCHANGED <<kind, s, a, lc, closed, skipping, nscen, nok, ff>>
 Step(e) == l <= Len(Rec) /\ ~skipping /\ Ev.ev = e /\ l' = l + 1
 
 \* ---- the server saw a request: the model's Send step with exactly this Range header
@@ -57,7 +71,7 @@ ReqEv ==
         ELSE IF <<Ev.first, Ev.last>> # <<a.off, a.off + a.size - 1>> THEN Flag("C08 RANGE: read_at request is not exactly the requested range") /\ UNCHANGED <<s, a>>
         ELSE a' = ASend(a) /\ NoFlag /\ UNCHANGED s
      ELSE Flag("HARNESS: request in a local scenario") /\ UNCHANGED <<s, a>>
-  /\ UNCHANGED <<kind, lc, ci, closed, nscen, nok>>
+  /\ UNCHANGED <<kind, lc, ci, closed, nscen, nok, ff>>
 
 \* ---- what the server did with it: the environment's choice
 SentEv ==
@@ -66,7 +80,7 @@ SentEv ==
         IF s.rq.st # "request" \/ s.res # "" THEN Flag("HARNESS: response without a pending request") /\ UNCHANGED <<s, a>>
         ELSE s' = Respond(s, Ev.how, Ev.n) /\ NoFlag /\ UNCHANGED a
      ELSE a' = AResp(a, Ev.how, Ev.n) /\ NoFlag /\ UNCHANGED s
-  /\ UNCHANGED <<kind, lc, ci, closed, nscen, nok>>
+  /\ UNCHANGED <<kind, lc, ci, closed, nscen, nok, ff>>
 
 \* ---- the consumer got a chunk
 ItemEv ==
@@ -84,7 +98,7 @@ ItemEv ==
         ELSE IF <<Ev.pos, Ev.len>> # <<lc.cs[ci][1], lc.cs[ci][2]>> THEN Flag("C08 LOCAL: delivered chunk is not exactly the requested range")
         ELSE NoFlag
   /\ ci' = ci + 1
-  /\ UNCHANGED <<kind, s, a, lc, closed, nscen, nok>>
+  /\ UNCHANGED <<kind, s, a, lc, closed, nscen, nok, ff>>
 
 \* ---- the consumer got an error
 ErrorEv ==
@@ -98,7 +112,7 @@ ErrorEv ==
         ELSE IF ci # LFirstBad(lc.cs, lc.flen) THEN Flag("C08 LOCAL: error before all chunks in front of the unreadable one were delivered")
         ELSE NoFlag
   /\ closed' = TRUE
-  /\ UNCHANGED <<kind, s, a, lc, ci, nscen, nok>>
+  /\ UNCHANGED <<kind, s, a, lc, ci, nscen, nok, ff>>
 
 \* ---- the stream ended
 EndEv ==
@@ -112,19 +126,19 @@ EndEv ==
         ELSE IF ci # Len(lc.cs) + 1 THEN Flag("C08 LOCAL: stream ended before every requested chunk was delivered")
         ELSE NoFlag
   /\ closed' = TRUE
-  /\ UNCHANGED <<kind, s, a, lc, ci, nscen, nok>>
+  /\ UNCHANGED <<kind, s, a, lc, ci, nscen, nok, ff>>
 
 \* ---- local reads are environment choices; they are not judged (a reader may read ahead or re-seek freely)
 LocalIo ==
   /\ \E e \in {"lread", "lseek"} : Step(e)
   /\ NoFlag
-  /\ UNCHANGED <<kind, s, a, lc, ci, closed, nscen, nok>>
+  /\ UNCHANGED <<kind, s, a, lc, ci, closed, nscen, nok, ff>>
 
 DoneEv ==
   /\ Step("done")
   /\ IF ~closed THEN Flag("HARNESS: scenario without a consumer result") /\ UNCHANGED nok
      ELSE skipping' = TRUE /\ UNCHANGED <<verdicts, nverdicts>> /\ nok' = nok + 1
-  /\ UNCHANGED <<kind, s, a, lc, ci, closed, nscen>>
+  /\ UNCHANGED <<kind, s, a, lc, ci, closed, nscen, ff>>
 
 TNext == Scenario \/ Skip \/ ReqEv \/ SentEv \/ ItemEv \/ ErrorEv \/ EndEv \/ LocalIo \/ DoneEv
 TSpec == TInit /\ [][TNext]_vars
